@@ -465,6 +465,11 @@ def check(ctx: Ctx):
     check_filter(ctx)
     col.check_safe_removal(ctx, f"{EM}.Emulsion.remove_small", "radius", (ast.LtE,), "radius <= min_radius", param="min_radius")
     check_otsu(ctx)
+    # the otsu rule is defined for every finite image: a histogram that cannot resolve the range must not abort the detection
+    from ..rules import support as _sup18
+
+    _sup18.compose(ctx, c09.check_otsu_total, keep=("TOTAL",))
+    _sup18.compose(ctx, c09.check_histogram_total, keep=("TOTAL",))
     from ..rules import purity as _purity
 
     _purity.check_late_binding(ctx, ("droplets.image_analysis",))
